@@ -16,7 +16,7 @@ encfix.install()
 F.hashlib = HashStub
 warnings.simplefilter('ignore')
 
-FUNCTIONS_ENCODED = ['pgpy.packet.fields.PrivKey.encrypt_keyblob', 'pgpy.packet.fields.PrivKey.decrypt_keyblob', 'pgpy.packet.fields.PrivKey.clear',
+FUNCTIONS_ENCODED = ['pgpy.packet.fields.PrivKey.__bytearray__', 'pgpy.packet.fields.*Priv.clear', 'pgpy.packet.fields.PrivKey.encrypt_keyblob', 'pgpy.packet.fields.PrivKey.decrypt_keyblob', 'pgpy.packet.fields.PrivKey.clear',
                      'pgpy.packet.fields.{RSAPriv,DSAPriv,EdDSAPriv}.decrypt_keyblob / parse', 'pgpy.packet.packets.PrivKeyV4.protect / unprotect / protected / unlocked',
                      'pgpy.pgp.PGPKey.protect', 'pgpy.pgp.PGPKey.unlock', 'pgpy.pgp.PGPKey.is_unlocked / is_protected', 'pgpy.decorators.KeyAction.check_attributes']
 STUBS = ['cipher -> ideal model (harness/encfix.py); SHA-1 in fields.py -> collision-free stand-in; String2Key.derive_key -> recording stand-in; os.urandom -> symbolic entropy feed']
@@ -68,7 +68,7 @@ def privfields(pkt):
 
 @ob('O6.1', 'protect(): what the cipher receives is  secret-MPIs || SHA-1(secret-MPIs)  under the key derived from the passphrase, with a fresh IV and a fresh '
             'salt from the entropy source; S2K is iterated+salted, usage 254; afterwards every secret field is zero',
-    'algorithm in {RSA, DSA, EdDSA}; 4 symbolic secret octets (RSA: four one-octet integers with the top bit set; DSA/EdDSA: one integer incl. leading zero bits); passphrase of 0..2 symbolic characters; symbolic entropy (IV 16, salt 8 octets)',
+    'algorithm in {RSA, DSA, EdDSA}; 4 symbolic secret octets (RSA: four one-octet integers with the top bit set; DSA/EdDSA: one integer incl. leading zero bits); passphrase of 0..2 symbolic characters; two symbolic entropy feed elements (an IV of 16 and a salt of 8 octets are drawn from them, in any order)',
     cond_timeout={'q': 280, 't': 900}, flags=('symmpi',), partitions=[['ai == 0'], ['ai == 1'], ['ai == 3']])
 def protect_layout(ai: int, a: int, b: int, c: int, d: int, pw: str, iv: bytes, salt: bytes) -> bool:
     """
@@ -76,7 +76,7 @@ def protect_layout(ai: int, a: int, b: int, c: int, d: int, pw: str, iv: bytes, 
     pre: 128 <= a < 256 and 0 <= b < 256 and 0 <= c < 256 and 0 <= d < 256
     pre: ai != 0 or (b >= 128 and c >= 128 and d >= 128)
     pre: len(pw) <= 2
-    pre: len(iv) == 16 and len(salt) == 8
+    pre: len(iv) == 16 and len(salt) == 16
     post: _
     """
     for k in (0, 1, 3):
@@ -84,16 +84,17 @@ def protect_layout(ai: int, a: int, b: int, c: int, d: int, pw: str, iv: bytes, 
             pkt, sec = secret_packet(k, a, b, c, d)
     Cipher.reset()
     S2K.log = []
-    Feed.reset([iv, salt])
+    Feed.reset([iv, salt])                 # two symbolic feed elements; which draw takes which is the library's business
     pkt.protect(pw, SymmetricKeyAlgorithm.AES128, HashAlgorithm.SHA1)
     enc = [e for e in Cipher.log if e[0] == 'enc']
     if len(enc) != 1:
         return False
     _, pt, key, alg, used_iv = enc[0]
     s2k = pkt.keymaterial.s2k
-    ok = pt == sec + inj_digest(sec) and used_iv == bytes(iv) and bytes(s2k.iv) == bytes(iv) and bytes(s2k.salt) == bytes(salt)
+    ok = pt == sec + inj_digest(sec) and used_iv == bytes(s2k.iv) and len(bytes(s2k.salt)) == 8
+    ok = ok and encfix.drawn_fresh(Feed.calls, [(16, bytes(s2k.iv)), (8, bytes(s2k.salt))])
     ok = ok and s2k.usage == 254 and s2k.specifier == String2KeyType.Iterated and alg == SymmetricKeyAlgorithm.AES128
-    ok = ok and len(S2K.log) == 1 and S2K.log[0][0] == pw.encode('utf-8') and S2K.log[0][1] == bytes(salt)
+    ok = ok and len(S2K.log) == 1 and S2K.log[0][0] == pw.encode('utf-8') and S2K.log[0][1] == bytes(s2k.salt)
     ok = ok and all(v == 0 for v in privfields(pkt)) and pkt.protected and not pkt.unlocked
     return ok
 
@@ -359,7 +360,7 @@ def foreign_forms(spec: int, u255: bool, x0: int, x1: int) -> bool:
     return False
 
 
-SANITY = ['export_after_unlock(%s, %s, %s, 0x81, 0x92)' % (u, r, x) for u in (True, False) for r in (True, False) for x in (True, False)] + ['text_passphrase_octets(1, b"12345678", "\\u00e9\\u00fc")', 'text_passphrase_octets(0, b"12345678", "a")'] + ['replay_arith(1100, 0, True)', 'replay_arith(0, 0, False)', 'protect_layout(0, 0x81, 2, 3, 4, "pw", bytes(range(16)), bytes(range(8)))', 'protect_layout(1, 0xFF, 0, 0, 0, "", bytes(16), bytes(8))', 'protect_layout(3, 0x80, 9, 9, 9, "\\u00e9", bytes(range(16)), b"abcdefgh")',
+SANITY = ['export_after_unlock(%s, %s, %s, 0x81, 0x92)' % (u, r, x) for u in (True, False) for r in (True, False) for x in (True, False)] + ['text_passphrase_octets(1, b"12345678", "\\u00e9\\u00fc")', 'text_passphrase_octets(0, b"12345678", "a")'] + ['replay_arith(1100, 0, True)', 'replay_arith(0, 0, False)', 'protect_layout(0, 0x81, 2, 3, 4, "pw", bytes(range(16)), bytes(range(100, 116)))', 'protect_layout(1, 0xFF, 0, 0, 0, "", bytes(16), bytes(range(50, 66)))', 'protect_layout(3, 0x80, 9, 9, 9, "\\u00e9", bytes(range(16)), b"abcdefghijklmnop")',
           'unlock_accept(True, b"\\x00\\x08\\x05\\x00\\x0d")', 'unlock_accept(True, b"\\x00\\x08\\x05\\x00\\x0e")', 'unlock_accept(False, b"\\x00\\x08\\x05" + inj_digest(b"\\x00\\x08\\x05"))',
           'unlock_accept(False, bytes(23))', 'unlock_scope(0, 0x81, 2, 3, 4, 0x91, 7, False, True)', 'unlock_scope(3, 0x81, 2, 3, 4, 0x91, 7, True, True)', 'unlock_scope(0, 0x81, 2, 3, 4, 0x91, 7, False, False)',
           'unlock_partial_failure(0, 0x81, 0x82, 0x83, 0x84, 0x91, 0x92)', 'unlock_partial_failure(3, 0x81, 0x82, 0x83, 0x84, 0x91, 0x92)', 'export_independent(0, 0xF1, 9, 9, 9)', 'export_independent(3, 0xF1, 9, 9, 9)', 'foreign_forms(3, False, 1, 2)', 'foreign_forms(0, True, 1, 2)', 'foreign_forms(101, False, 0, 0)', 'foreign_forms(1, True, 0, 0)']
